@@ -6,13 +6,17 @@
    behaviour is followed to its outcome, so these are all terminal behaviours within the bound
    as far as a master meeting its obligations can consume them.  The simulated terminal plays
    d[i] at the i-th write to AL control (0 beyond the script) and raises the error flag at poll
-   number ep (0: never).                                                                      *)
+   number ep (0: never).  hi: the bits of the AL status register above the error indicator
+   (bit 5 "device identification loaded", reserved bits) that the terminal shows all the
+   time; they are no part of the state or of the error indication.  *)
 EXTENDS AlDriver, Sequences, Json
+CONSTANT HiBits      \* values of the AL status bits above bit 4 to play (multiples of 32)
 VARIABLES hist, np
 svars == <<vars, hist, np>>
 
 SInit == /\ Init
-         /\ hist = [start |-> tst, err |-> terr, target |-> target, d |-> <<>>, ep |-> 0]
+         /\ \E h \in HiBits :
+               hist = [start |-> tst, err |-> terr, target |-> target, d |-> <<>>, ep |-> 0, hi |-> h]
          /\ np = 0
 
 CanAct == outcome = "none" /\ started /\
